@@ -34,6 +34,19 @@ def ev(t, env):
         return ev(t[1], env)
     if k == "field" and t[2] == "0" and isinstance(t[1], tuple) and t[1][0] == "bin" and t[1][1].endswith("WithOverflow"):
         return ev(("bin", t[1][1][:-len("WithOverflow")], t[1][2], t[1][3]), env)
+    if k == "field" and isinstance(t[1], tuple) and t[1] and t[1][0] == "variant" and t[1][2] == "Some" and t[2] == "0":
+        o = ev(t[1][1], env)
+        if isinstance(o, tuple) and o and o[0] == "opt" and o[1] is not None:
+            return o[1]
+        raise Unknown(mir.show(t)[:120])
+    if k == "index":
+        base = ev(t[1], env)
+        ix = ev(t[2], env) if t[2] is not None else None
+        if isinstance(base, (list, tuple, bytes)) and not (isinstance(base, tuple) and base and base[0] == "opt") and isinstance(ix, int):
+            if ix >= len(base):
+                raise Overflow("index out of bounds")
+            return base[ix]
+        raise Unknown(mir.show(t)[:120])
     if k == "bin":
         a, b = ev(t[2], env), ev(t[3], env)
         if not isinstance(a, int) or not isinstance(b, int):
@@ -78,6 +91,23 @@ def ev(t, env):
                 return ev(args[1], env) if o[1] is None else o[1]
         if nm in ("from", "into", "clone") and len(args) == 1:
             return ev(args[0], env)
+        if nm == "len" and len(args) == 1:
+            v = ev(args[0], env)
+            if isinstance(v, (list, bytes)):
+                return len(v)
+        if nm == "get" and len(args) == 2:
+            base, ix = ev(args[0], env), ev(args[1], env)
+            if isinstance(base, (list, bytes)) and isinstance(ix, int):
+                return ("opt", base[ix] if ix < len(base) else None)
+        if nm in ("copied", "cloned") and len(args) == 1:
+            o = ev(args[0], env)
+            if isinstance(o, tuple) and o and o[0] == "opt":
+                return o
+        if nm == "map_or" and len(args) == 3:
+            o = ev(args[0], env)
+            f = mir.show(args[2])
+            if isinstance(o, tuple) and o and o[0] == "opt" and (f.endswith("from") or f.endswith("into")):
+                return ev(args[1], env) if o[1] is None else o[1]
         if nm == "is_multiple_of" and len(args) == 2 and t[1].startswith("core::num"):
             a, b = ev(args[0], env), ev(args[1], env)
             return (a == 0) if b == 0 else (a % b == 0)
@@ -116,6 +146,8 @@ def ev_atom(kind, args, env):
         v = ev(args[0], env)
         if isinstance(v, bool):
             return v
+        if v in (0, 1):
+            return bool(v)
         raise Unknown("bool on non-bool")
     if kind == "is_some":
         o = ev(args[0], env)
